@@ -330,7 +330,7 @@ func (r Condition) IsEqual(o any) (err error) {
 		// handle condition/condition-alias assertion
 		// and exit immediately if it fails due to a
 		// bad type, or uninitialized input for o.
-		if s, ok := conditionTypeAliasConverter(o); ok {
+		if s, ok := conditionTypeAliasConverter(o); ok && s.IsInit() {
 			if fn := r.condition.cfg.eqf; fn != nil {
 				// use the user-authored closure assertion
 				err = fn(r, o)
